@@ -154,7 +154,11 @@ pub trait BlsSignatureProof:
         if let Some(tt) = timeout_ms {
             let now = SystemTime::now();
             let since = UNIX_EPOCH + Duration::from_millis(t);
-            let elapsed = now.duration_since(since).unwrap().as_millis() as u64;
+            // a timestamp that lies in the future is not a valid proof
+            let elapsed = match now.duration_since(since) {
+                Ok(elapsed) => elapsed.as_millis() as u64,
+                Err(_) => return Err(BlsError::InvalidProof),
+            };
             if elapsed > tt {
                 return Err(BlsError::InvalidProof);
             }
